@@ -344,3 +344,36 @@ var (
 //@   requires ptr != nil
 //@   ensures result ==> __resultBool("Decoder.numberStr", 1) && *ptr >= 0 && uint64(*ptr) == __decval(__resultStr("Decoder.numberStr", 0))
 //@   ensures __resultBool("Decoder.numberStr", 1) && __decval(__resultStr("Decoder.numberStr", 0)) <= 0x7FFFFFFFFFFFFFFF ==> result
+
+// ---------------------------------------------------------------------------
+// C01: quoted strings. QuotedSpec is the RFC 3501 quoted form: DQUOTE, every
+// byte of s in order with '"' and '\\' preceded by a backslash, DQUOTE -
+// defined byte by byte from the left (QuotedPrefix(s, i) is the text for the
+// first i bytes).
+
+//@ pure
+//@ decreases i
+func QuotedPrefix(s string, i int) string {
+	if i <= 0 {
+		return "\""
+	}
+	p := QuotedPrefix(s, i-1)
+	if s[i-1] == '"' || s[i-1] == '\\' {
+		return p + "\\" + s[i-1:i]
+	}
+	return p + s[i-1:i]
+}
+
+//@ pure
+func QuotedSpec(s string) string {
+	return QuotedPrefix(s, len(s)) + "\""
+}
+
+//@ func (enc *Encoder) Quoted(s string) (result *Encoder)
+//@   props C01:callsite,post,inv-init,inv-step,pre@call,terminates
+//@   callsite Encoder.writeString(e *Encoder, str string) requires str == QuotedSpec(s)
+//@   ensures __called("Encoder.writeString")
+//@   loop 0 vars (i int)
+//@   loop 0 locals (sb *strings.Builder)
+//@   loop 0 invariant 0 <= i && i <= len(s) && sb.String() == QuotedPrefix(s, i)
+//@   loop 0 decreases len(s) - i
